@@ -156,6 +156,7 @@ fn drive<I: DoubleEndedIterator>(mut it: I, script: &[bool], skips: &[u8], end: 
             });
         }
         EndMode::Fold => it.fold((), |(), x| items.push(on_item(x))),
+        EndMode::RFold => it.rfold((), |(), x| items.push(on_item(x))),
     }
 }
 
@@ -221,9 +222,16 @@ pub fn exec(w: &mut World, op: &Op) -> Outcome {
             }
             return Outcome::Cloned;
         }
-        OpKind::DropCache => {
+        OpKind::DropCache | OpKind::DropCacheUnwinding => {
             let c = w.caches[t].take();
-            drop(c);
+            if matches!(op.kind, OpKind::DropCacheUnwinding) {
+                absorb_iter_panic(move || {
+                    let _alive = c;
+                    std::panic::panic_any(Injected(ITER_ALIVE_PANIC));
+                });
+            } else {
+                drop(c);
+            }
             if t == 0 {
                 w.caches[0] = Some(World::make_cache(&w.cfg));
             }
@@ -478,7 +486,7 @@ pub fn exec(w: &mut World, op: &Op) -> Outcome {
             });
             Outcome::Iter(items)
         }
-        OpKind::CloneTo | OpKind::CloneFrom | OpKind::DropCache => unreachable!(),
+        OpKind::CloneTo | OpKind::CloneFrom | OpKind::DropCache | OpKind::DropCacheUnwinding => unreachable!(),
     };
     w.held_k.append(&mut held_k);
     w.held_v.append(&mut held_v);
